@@ -253,4 +253,4 @@ Ltac pose_nn :=
 
 Create HintDb wdb.
 #[export] Hint Rewrite @wsum_cons @wsum_nil @wsum_app @wsum_rev @wsum_l_yank @wsum_l_shove @wsum_ins
-  iweight_list @zlen_cons' @zlen_nil' @zlen_app' @zlen_rev' @zlen_map' @zlen_repeat' @zlen_upd' : wdb.
+  iweight_list @zlen_cons' @zlen_nil' @zlen_app' @zlen_rev' @zlen_map' @zlen_repeat' @zlen_upd' @wsum_cnt : wdb.
